@@ -12,3 +12,5 @@ open Just.Props.C17
 #print axioms alias_annotation_iff
 #print axioms mem_insertBy
 #print axioms mem_sortByOffset
+#print axioms groups_listed_iff
+#print axioms groups_listed_once
